@@ -355,6 +355,7 @@ class Package:
         "itertools.tee_peer": ("itertools.Tee.__init__", "asyncgen", 0),
         "itertools._repeat": ("itertools.zip_longest", "asyncgen", 0),
         "itertools.chain._chain_iterator": ("itertools.chain.__init__", "asyncgen", 0),
+        "heapq._KeyIter.from_iters": ("heapq.merge", "asyncgen", 0),
     }
 
     def _fallback(self, short: str) -> Optional[Unit]:
